@@ -405,3 +405,18 @@ def exit_on_idle_watch():
     else:
         check('exit-any/stopped', w._state == STOPPED)
     check_inv(w, T, 'exit-any')
+
+
+CANARIES = [
+    dict(name='delta-not-clamped', file=TU, proofs=['elapsed_contract'],
+         old='return max(0.0, later - earlier)',
+         new='return later - earlier', expect='elapsed/never-negative'),
+    dict(name='resume-resets-start', file=TU, proofs=['resume_contract'],
+         old="            self._state = self._STARTED\n            return self\n        else:\n            raise RuntimeError(\"Can not resume",
+         new="            self._state = self._STARTED\n            self._started_at = now()\n            return self\n        else:\n            raise RuntimeError(\"Can not resume",
+         expect='resume/'),
+    dict(name='expired-uses-ge', file=TU, proofs=['expired_contract'],
+         old='return self.elapsed() > self._duration',
+         new='return self.elapsed() >= self._duration',
+         expect='expired/iff'),
+]
